@@ -226,3 +226,30 @@ def path_field(path):
         if x[0] == "f":
             return x[2]
     return None
+
+
+def collection_items(eng, rows, fx=None):
+    """How a collection is built, whatever the style: per loop-body row the items it adds — from `pipeline.collect()` (engine
+    event fused:collect-item) or from `map.insert(k, v)` / `set.insert(k)` / `vec.push(x)` in a `for` loop.
+    -> [(row, [(key term, value term | None)])] for every loop-body row (rows that add nothing have an empty list)"""
+    out = []
+    for row in rows:
+        if row.exit != "backedge":
+            continue
+        adds = []
+        for e in row.calls():
+            nm = sym.strip_all_generics(e[1]).split("::")[-1]
+            if e[1] == "fused:collect-item":
+                el = resolve_locals(eng, row.store, e[2][0])
+                if el[0] == "agg" and el[1] == "<tuple>" and len(el[3]) == 2:
+                    adds.append((el[3][0][1], el[3][1][1]))
+                else:
+                    adds.append((el, None))
+            elif nm == "insert" and ("collections::" in e[1]) and len(e[2]) >= 2:
+                k = resolve_locals(eng, row.store, e[2][1])
+                v = resolve_locals(eng, row.store, e[2][2]) if len(e[2]) > 2 else None
+                adds.append((k, v))
+            elif nm == "push" and "vec::Vec" in e[1] and len(e[2]) == 2:
+                adds.append((resolve_locals(eng, row.store, e[2][1]), None))
+        out.append((row, adds))
+    return out
